@@ -23,11 +23,52 @@ structure WriteSite where
   underLock : Bool    -- lexically after a `.Lock()` call in the same function
   deriving Repr
 
+/-- how a function hands a package-level variable (or a function literal) to its caller -/
+inductive EscapeHow where
+  | returned   -- `return x`, `return &x`, x inside a returned composite literal / slice expression / append / local alias
+  | stored     -- stored into a field or element of another object (which the caller may hold)
+  | passed     -- given as an argument to another function (which may keep or change it)
+  deriving DecidableEq, Repr
+
+structure Escape where
+  func : String
+  how : EscapeHow
+  deriving Repr
+
 structure GlobalVar where
   pkg : String
   name : String
   kind : VarKind
   writes : List WriteSite
+  /-- the type, as far as the syntax tells (documentation only) -/
+  typ : String := ""
+  /-- a holder of (an alias of) the value can change state other holders see: slice, map, (pointer to) a named type with
+      pointer-receiver methods that write the receiver, or a struct with such a field -/
+  mutable : Bool := false
+  /-- the functions that return the variable / embed it in what they return / store it into another object -/
+  escapes : List Escape := []
+  deriving Repr
+
+/-- where a variable written by an escaping function literal was declared in the enclosing function -/
+inductive DeclKind where
+  | loc | param | recv   -- loc: a local variable of the enclosing function
+  deriving DecidableEq, Repr
+
+structure CapturedWrite where
+  name : String
+  how : WriteHow
+  decl : DeclKind
+  underLock : Bool    -- lexically after a `.Lock()` call inside the function literal
+  deriving Repr
+
+/-- a function literal that outlives the call of the enclosing function (constructor closures: `NewBoolFuncSymbol` …) and the
+    variables of the enclosing function it captures and writes: they are allocated once per constructor call and shared by
+    every invocation of the closure, from whatever goroutine -/
+structure Closure where
+  pkg : String
+  func : String
+  escape : EscapeHow
+  writes : List CapturedWrite
   deriving Repr
 
 /-- allowed: a sync.Pool, an atomic, a mutex, a once-guarded struct; or a plain variable that is never written after
@@ -39,6 +80,27 @@ def noUnsyncWrites (gs : List GlobalVar) : Bool := gs.all GlobalVar.ok
 
 def offenders (gs : List GlobalVar) : List String :=
   (gs.filter (fun g => !g.ok)).map (fun g => g.pkg ++ "." ++ g.name)
+
+/-- a plain variable whose value is mutable and which some function hands out is ONE object shared by all callers of that
+    function (two `ast.Parse("")` calls returning the same query node): not allowed -/
+def GlobalVar.noSharedEscape (g : GlobalVar) : Bool :=
+  g.kind != .plain || !g.mutable || g.escapes.isEmpty
+
+/-- an escaping function literal may write captured state of its constructor only under a lock -/
+def Closure.ok (c : Closure) : Bool := c.writes.all (·.underLock)
+
+def noSharedMutableEscape (gs : List GlobalVar) (cs : List Closure) : Bool :=
+  gs.all GlobalVar.noSharedEscape && cs.all Closure.ok
+
+def escapeOffenders (gs : List GlobalVar) (cs : List Closure) : List String :=
+  (gs.filter (fun g => !g.noSharedEscape)).map (fun g => g.pkg ++ "." ++ g.name) ++
+  (cs.filter (fun c => !c.ok)).map (fun c => c.pkg ++ "." ++ c.func ++ " (closure)")
+
+def hasClosure (cs : List Closure) (pkg func : String) : Bool :=
+  cs.any (fun c => c.pkg == pkg && c.func == func)
+
+def hasEscape (gs : List GlobalVar) (pkg name func : String) (m : Bool) : Bool :=
+  gs.any (fun g => g.pkg == pkg && g.name == name && g.mutable == m && g.escapes.any (·.func == func))
 
 def hasVar (gs : List GlobalVar) (pkg name : String) (k : VarKind) : Bool :=
   gs.any (fun g => g.pkg == pkg && g.name == name && g.kind == k)
